@@ -7,7 +7,24 @@ VERIF = os.path.dirname(os.path.dirname(os.path.abspath(__file__)))
 ALL = ["C%02d" % i for i in range(1, 21)]
 
 # pid -> (category, technique, text, note, design_ref)
+A_NOTE = "Trusted: the reference link model (core/refmodels.py, written from the adapter documentation), the harness components (thin subclasses of the public SDK classes) and the generic fingerprint (never drops a field). Bounds: see evidence 'bound'. Times on an hour/half-hour lattice."
+A_TECH = "explicit-state breadth-first model checking of the real Composition.run: every next_time is an environment choice, snapshots by deepcopy of the live composition, de-duplication by canonical fingerprint, reference link model as oracle on every transition"
+
 CHECKS = {
+    "C01": (
+        "model_checking",
+        A_TECH,
+        "All schedules the driver can produce for the enumerated coupling graphs/adapter chains/listing orders within the horizon are explored exhaustively on the implementation itself (states and transitions are those of live finam objects); on every update the reference link model decides whether an upstream component lacks data, every pull is compared with the unlimited-history reference value, and any time/no-data error or out-of-range request is a violation.",
+        A_NOTE,
+        "DESIGN.md section 3 (engine A) and section 4, C01",
+    ),
+    "C02": (
+        "model_checking",
+        A_TECH,
+        "Same exhaustive state graphs as C01 plus all splittings of a total delay over 2-3 delay adapters; on every update transition the updated component must be justified by the reference (least advanced, or upstream of it along lacks-data edges) and the time reaching each source output must equal the reference's accumulated shifted time.",
+        A_NOTE,
+        "DESIGN.md section 3 (engine A) and section 4, C02",
+    ),
     "C14": (
         "exploration",
         "bounded-exhaustive enumeration of all grid layouts and of all read/copy/set-location operation sequences up to depth 3/4 against coordinate arithmetic and a freshly built grid",
